@@ -28,6 +28,7 @@ CLAIMED = {
              "evaluations at x'. CWMH sweeps are replayed by a reference sweep fed the same proposals and uniforms. Histories: fresh, after "
              "warm-up/adaptation under a seeded stream, after get_state -> set_state into a new sampler. NaN / -inf proposals must be "
              "rejected for every u including 1e-300. Exact MH acceptance for the measured q is detailed balance, hence invariance.",
+        text2="States outside the support: from a state of log-density -inf a proposal outside is never accepted and a proposal inside is accepted with probability one; un-normalised targets (log-density shifted by -900/-5000/+400).",
         note="Assumes proposals are affine in the base normal draw (checked per case). Targets: quadratic+quartic with analytic gradient, "
              "linear/non-linear Gaussian posteriors for pCN; dim <= 5.",
         design="3/C02"),
@@ -39,6 +40,7 @@ CLAIMED = {
              "multiple-likelihood posteriors, every returned gradient must equal the numerical derivative of the same object's logd in "
              "parameter space; exceptions are refusals; outside the support a finite vector is a violation; with enable_FD() the "
              "forward-difference gradient must equal the derivative with a looser tolerance.",
+        text2="Gradients evaluated on a buffer that was overwritten in place; translation invariance of GMRF/CMRF gradients under periodic/Neumann boundary conditions; fields of 400-700 nodes (a non-finite log-density at an ordinary field is a violation).",
         note="Trusted: numpy; derivative error estimate |D(h)-D(h/2)| must be below 1e-3 relative or the case is inconclusive; "
              "points at kinks (Laplace location, cusp of CalSom91/donut at the origin) are moved away. PDE-based model gradients: C18.",
         design="3/C03"),
@@ -73,7 +75,7 @@ CLAIMED = {
              "covariance, the map affine and independent of the current state, and the stacked operator's adjoint action the exact "
              "transpose of its forward action. For UGLA the same reading must give mean and covariance of the documented local Gaussian "
              "A^T Gamma^-1 A + (1/scale) D^T W_k D at the current state.",
-        text2="History independence (every class, incl. the one excluded by the recorded UGLA finding): step k of a chain must equal the step a fresh sampler started at the same state makes under the same scripted perturbation. A third of the RTO cases run with cuqi.config.MIN_DIM_SPARSE lowered so that the sparse square-root code path is taken.",
+        text2="The same problem in units x1e5; a larger, less well conditioned class (second-order GMRF prior, 24/40 unknowns); an MRF on the other grid layout built first; memory layouts of matrix and data. History independence (every class, incl. the one excluded by the recorded UGLA finding): step k of a chain must equal the step a fresh sampler started at the same state makes under the same scripted perturbation. A third of the RTO cases run with cuqi.config.MIN_DIM_SPARSE lowered so that the sparse square-root code path is taken.",
         note="Inner CGLS run with tol 1e-14 and maxit 20n+100 (convergence itself is C16's subject). UGLA with non-zero LMRF location is a "
              "recorded finding (excluded, counted).",
         design="3/C06"),
@@ -83,6 +85,7 @@ CLAIMED = {
              "shipped linear test problem under generated options, forward and adjoint are probed on all unit vectors, which "
              "decides G = F^T, get_matrix() = F and the .T relations exactly for that model; generated x, y add the inner-product "
              "form on ndarray and CUQIarray inputs. Generated search over configurations; sizes bounded (dim <= 10, images <= 10x10).",
+        text2="Exact homogeneity under scaling by 2^-47 and 2^30; memory layouts of the model matrix.",
         note="Trusted: linearity of forward/adjoint on parameter vectors (itself probed), numpy. Classes under recorded "
              "known findings (non-orthonormal expansion geometries; Deconvolution2D even PSF / reflective BC) are excluded and counted.",
         design="3/C07"),
@@ -112,7 +115,7 @@ CLAIMED = {
              "sample call resumes from the last stored tuple. MH blocks additionally run the C02 decision test against the true current "
              "conditional inside the sweep. Invariance: theta ~ prior, y ~ p(y|theta), s sweeps on p(theta|y) with exact block samplers "
              "must leave theta prior-distributed (KS and variance tests on closed-form pivots, two-stage rule).",
-        text2="Block samplers include pCN (decision test against the likelihood ratio of the current conditional, proposal learnt by a dry run with the state restored through get_state/set_state); the sampling_strategy / num_sampling_steps dictionaries are passed in permuted key order and with step counts for a subset of blocks; legacy Gibbs is run as sample(N, Nb>0) followed by sample(M).",
+        text2="A decoy HybridGibbs built with default step counts and re-configured first; tiny-move histories (proposal scales 1e-5 of the usual ones). Block samplers include pCN (decision test against the likelihood ratio of the current conditional, proposal learnt by a dry run with the state restored through get_state/set_state); the sampling_strategy / num_sampling_steps dictionaries are passed in permuted key order and with step counts for a subset of blocks; legacy Gibbs is run as sample(N, Nb>0) followed by sample(M).",
         note="Statistical part: 600 (quick) / 6000 (thorough) replicates per configuration: detects gross violations of invariance only "
              "(KS sup-distance ~0.07 / 0.02); the history part is exact.",
         design="3/C09"),
@@ -124,7 +127,7 @@ CLAIMED = {
              "logd; unsupported structures (wrong functional dependence, two occurrences, multivariate Gamma, non-Gamma prior, non-"
              "Gaussian likelihood) must be rejected - an accepted one is a violation only if what it draws from is not the true "
              "conditional; ConjugateApprox: rejection rules only; Direct: step() equals target.sample() under the same seeded stream.",
-        text2="A third of the experimental cases re-target a sampler object that has already been used on another posterior of the same structure (as HybridGibbs does).",
+        text2="Data and mean on an exact large base line (2^20, 2^23); a conjugate step on the other grid layout made first. A third of the experimental cases re-target a sampler object that has already been used on another posterior of the same structure (as HybridGibbs does).",
         note="Recorded findings (GMRF with periodic/neumann bc: shape uses len(x) instead of the rank; legacy Conjugate without structural "
              "validation) are excluded and counted.",
         design="3/C10"),
@@ -147,7 +150,7 @@ CLAIMED = {
              "ndarray parameters, flagged function values, CUQIarrays in both representations and Samples must equal "
              "range.fun2par(F(domain.par2fun(p))) and be wrapped like the input; gradient must equal J_p^T d (central differences of "
              "forward) or be refused exactly when it cannot be formed; model(distribution) must only rename the input on a copy.",
-        text2="References for mapped geometries are composed by the harness (wrapped geometry, then map); range geometries include KL/step expansions and mapped geometries around them (gradient must then be refused); user functions are generated both defensively (np.asarray) and as plain array expressions so that geometry-carrying arrays travel through the user's arithmetic; a user subclass of MappedGeometry around an expansion supplies its own gradient; linearisation points are given as parameters, function values and CUQIarrays of either kind, alone and together with a CUQIarray direction; integer-typed and function-value Samples.",
+        text2="Sub-check pde_model: PDE-based models on ndarray / CUQIarray / function-value / Samples inputs, another PDE model applied to the same array object first, buffers overwritten in place, tiny-step sample collections; user functions return their results in generated memory layouts; image flattening is compared with the pixel order by definition. References for mapped geometries are composed by the harness (wrapped geometry, then map); range geometries include KL/step expansions and mapped geometries around them (gradient must then be refused); user functions are generated both defensively (np.asarray) and as plain array expressions so that geometry-carrying arrays travel through the user's arithmetic; a user subclass of MappedGeometry around an expansion supplies its own gradient; linearisation points are given as parameters, function values and CUQIarrays of either kind, alone and together with a CUQIarray direction; integer-typed and function-value Samples.",
         note="Trusted: numpy; central differences with step 1e-6 (tolerance 2e-5). PDE-based models are covered under C18.",
         design="3/C12"),
     "C17": dict(
@@ -170,6 +173,7 @@ CLAIMED = {
              "must satisfy its recurrence with the operator of that step; info must be exactly the solver's extra return values; observe "
              "must be exact at coinciding nodes/times and equal the stated scipy interpolant elsewhere, followed by the observation map; "
              "PDEModel.forward/gradient must equal the pipeline done by hand and its analytic/finite-difference derivative.",
+        text2="Grids in other units (x1e-7) and far from the origin (+5e5); a sensor listed twice; zero initial state with a source switched on at a later time level.",
         note="Trusted: numpy/scipy linear algebra and interpolation routines.",
         design="3/C18"),
     "C13": dict(
@@ -179,6 +183,7 @@ CLAIMED = {
              "projection idempotence, partition of unity of the step indicators with documented interval membership, batch = "
              "column-wise application, reported shapes = produced shapes, and lossless Samples/CUQIarray conversions. Generated "
              "search; dimensions <= 12 (grids <= 60 nodes in the thorough tier).",
+        text2="Function values and parameters handed over in other memory layouts; step grids in units 1e-6..1e-15 and 1e6; a coupled (non element-wise) map in the geometry family, decided through the sample-collection conversions.",
         note="Trusted: numpy; tolerance 1e-9 for sine-transform round trips; nodes within 1e-9 of a step boundary may belong to either adjacent step.",
         design="3/C13"),
     "C14": dict(
@@ -202,7 +207,7 @@ CLAIMED = {
              "solution; no probe point at 1e-3..1e-1 posterior standard deviations may have a larger logd and the gradient must vanish in "
              "units of the posterior scale; for non-linear problems the estimate must be as good as a multi-start high-precision optimum; "
              "with np.random.randn scripted the direct sampling route must have offset = closed-form mean and B B^T = closed-form covariance.",
-        text2="Cases also materialise covariances with compute_cov() first (closed-form route for prec/sqrtprec/sqrtcov inputs) and pass a generated x0 to MAP. ML by numerical optimisation is accepted when it is the weighted least-squares solution or stationary for the reference log-likelihood within the solver's tolerance.",
+        text2="Vague priors (variance ratio 1e8, conditioning-aware tolerances); a decoy model on the same callables with another domain geometry; non-linear MAP from a far start vector. Cases also materialise covariances with compute_cov() first (closed-form route for prec/sqrtprec/sqrtcov inputs) and pass a generated x0 to MAP. ML by numerical optimisation is accepted when it is the weighted least-squares solution or stationary for the reference log-likelihood within the solver's tolerance.",
         note="Trusted: numpy.linalg closed forms; scipy optimisers for the multi-start reference. Exceptions are refusals (allowed). "
              "Matrix-backed models with KL/Step geometry are a recorded finding (excluded, counted).",
         design="3/C15"),
@@ -214,7 +219,7 @@ CLAIMED = {
              "worse than perturbed feasible points; LM results must be stationary within gradtol; the SciPy wrappers must reproduce "
              "the direct SciPy call bit for bit; projections/soft-thresholding must equal the closed forms and satisfy the variational "
              "inequality. Iteration-cap exits are inconclusive. Sizes <= 14.",
-        text2="FISTA from a start vector of another number type (int, float32) must reproduce the run from the same numbers as float64 exactly; step size and proximal map re-assigned on a live solver; LM on problems translated by 1e3 / 1e6; proximal maps with exact zeros; CGLS/PCGLS non-convergence on a well-conditioned system is a violation.",
+        text2="CGLS/PCGLS from a start that already solves the system and with a zero right-hand side; systems in other units (operator x1e-5..1e5, data x1e-6..1e6); user-level tolerance 1e-6; PCGLS with shift and with preconditioners of other overall size; memory layouts of A, b, x0. FISTA from a start vector of another number type (int, float32) must reproduce the run from the same numbers as float64 exactly; step size and proximal map re-assigned on a live solver; LM on problems translated by 1e3 / 1e6; proximal maps with exact zeros; CGLS/PCGLS non-convergence on a well-conditioned system is a violation.",
         note="Trusted: numpy.linalg, SciPy optimisers as reference; LM is exercised with gradtol >= 1e-8 (tighter tolerances are "
              "not reachable in floating point on large-residual problems, see DESIGN).",
         design="3/C16"),
@@ -224,6 +229,7 @@ CLAIMED = {
              "raw array for generated arrays, burn-in/thinning values incl. boundaries, credibility levels and generated sequences "
              "of burnthin/funvals/vector/parameters calls interpreted against a numpy model; ESS/R-hat are compared with arviz "
              "applied to each variable's row in order, on rows with different autocorrelation so that a permutation shows.",
+        text2="Chains on a large base line (2^27), chains moving in steps of 1e-7, a coupled-map geometry, sample arrays in other memory layouts.",
         note="Trusted: numpy reductions, arviz ess/rhat as reference implementations.",
         design="3/C19"),
     "C20": dict(
@@ -232,7 +238,7 @@ CLAIMED = {
              "with an independent dense reference (pad-then-diff); the MRF priors are compared with the documented densities of "
              "those reference differences at generated points with non-zero location. Exhaustive inside the size bounds, "
              "generated search for the continuous inputs; no proof beyond the bounds.",
-        text2="Sub-checks nonsquare_2d (MRFs on non-square 2-D geometries must be refused or correct) and gmrf_large (2-D 20-36, 1-D 300-700: normalising constant against eigenvalues of the reference precision); pdf must equal exp(logpdf) for LMRF/CMRF.",
+        text2="Zero-sum locations (alternating, centred ramp, opposite spikes); translation invariance of intrinsic GMRF log-densities; LMRF/CMRF fields of 400-700 nodes and 18x18/26x26 grids; a decoy MRF on the other grid layout built first. Sub-checks nonsquare_2d (MRFs on non-square 2-D geometries must be refused or correct) and gmrf_large (2-D 20-36, 1-D 300-700: normalising constant against eigenvalues of the reference precision); pdf must equal exp(logpdf) for LMRF/CMRF.",
         note="Trusted: numpy/scipy dense linear algebra; the reference reading of the boundary conditions stated in "
              "checks/c20.py (ASSUMPTIONS).",
         design="3/C20"),
